@@ -1,5 +1,7 @@
 """C06 — parsing any byte string terminates and fails only with a protocol error."""
+import signal
 import struct
+import time
 import traceback
 
 from vf import gen, linemon
@@ -12,7 +14,7 @@ RULE = ('Message.parse(data, header_only, crypto) on: random byte strings; every
         'messages of each exchange kind; a structure-aware grid (every length / next-payload / more / count / critical field at '
         'payload, proposal, transform, attribute, selector, delete, notify level x hostile values); the same mutations applied to '
         'the PLAINTEXT of protected messages, re-padded and re-MACed with the right keys by the reference (plus wrong pad length, '
-        'pad > body, empty body, non-block-multiple ciphertext, IV only); (e) scaling: 17 extreme but well-formed shapes (thousands of pairwise different transforms in one proposal, many proposals, many attributes, selectors, SPIs, chained payloads, huge single bodies) at sizes 3..48 KB (thorough: 1.5..64 KB), clear and inside SK; (f) each shard process parses 260 (thorough 3000) DISTINCT well-formed messages with long proposals and then the first ones again: all accepted, same result as the first time. Oracle per call: outcome in {return, InvalidSyntax, '
+        'pad > body, empty body, non-block-multiple ciphertext, IV only; each also with a cleartext payload in front of SK whose length makes the sum a whole number of blocks); (e) scaling: 17 extreme but well-formed shapes (thousands of pairwise different transforms in one proposal, many proposals, many attributes, selectors, SPIs, chained payloads, huge single bodies) at sizes 3..48 KB (thorough: 1.5..64 KB), clear and inside SK; (f) each shard process parses 260 (thorough 3000) DISTINCT well-formed messages with long proposals and then the first ones again: all accepted, same result as the first time. (g) identities of every ID type, vendor IDs and notification data whose text is hostile to pattern matching (long runs, then something that cannot match). Oracle per call: CPU time of the call <= 1.5 s + 60 us per octet (a virtual-time alarm aborts a call after 8 s: work hidden inside one C call executes no line), outcome in {return, InvalidSyntax, '
         'UnsupportedCriticalPayload} and executed repository lines <= 600 + 20*len + 5*S (S = SPI counts declared in DELETE headers); '
         'over budget the call is aborted from the LINE callback. distinct = (corpus class, outcome, raising function, length bucket).')
 ASSUMPTIONS = ['sys.monitoring LINE events of /repo code objects measure work; constants fixed from the densest honest inputs with >=3x head-room',
@@ -33,9 +35,22 @@ def make_crypto(rng, strong=True):
     return c, (integ_id, sk_a, sk_e)
 
 
+CPU_BASE, CPU_PER_OCTET, CPU_ABORT = 1.5, 60e-6, 8.0      # seconds of CPU time of the calling thread (>= 10x the slowest honest call under the line monitor)
+
+
+class CpuAbort(BaseException):
+    pass
+
+
+def _on_alarm(signum, frame):
+    raise CpuAbort('virtual-time alarm: the call used more than %.0f s of CPU time' % CPU_ABORT)
+
+
 class Parser:
     def __init__(self, ck):
         self.ck = ck
+        self.max_cpu = 0.0
+        signal.signal(signal.SIGVTALRM, _on_alarm)
         self.mon = linemon.LineMon()
         self.mon.start()
         self.max_density = 0.0
@@ -48,7 +63,24 @@ class Parser:
         if crypto is not None and desc is not None and 'inner' in desc:
             inner_S = gen.declared_delete_spis(desc['inner'], desc.get('inner_first', 0))
         budget = 600 + 20 * len(data) + 5 * (S + inner_S)
-        res, exc, lines = self.mon.measure(lambda: r_msg.Message.parse(data, header_only=header_only, crypto=crypto), budget)
+        # work hidden inside ONE call into C code (a regular expression, a conversion) executes no further line: the CPU time of the call is bounded too,
+        # and a virtual-time alarm aborts a call that does not come back (the regex engine and the interpreter loop check for signals)
+        cpu_budget = CPU_BASE + CPU_PER_OCTET * len(data)
+        signal.setitimer(signal.ITIMER_VIRTUAL, CPU_ABORT)
+        t0 = time.thread_time()
+        try:
+            res, exc, lines = self.mon.measure(lambda: r_msg.Message.parse(data, header_only=header_only, crypto=crypto), budget)
+        except CpuAbort as ex:
+            res, exc, lines = None, ex, -1
+        finally:
+            signal.setitimer(signal.ITIMER_VIRTUAL, 0)
+        cpu = time.thread_time() - t0
+        self.max_cpu = max(self.max_cpu, cpu)
+        if isinstance(exc, CpuAbort) or cpu > cpu_budget:
+            ck.count(f'parse.{cls}')
+            ck.violation(f"non-termination-or-superlinear:cpu-time:{'aborted' if isinstance(exc, CpuAbort) else 'over-budget'}:{cls.split('.')[0]}",
+                         {'len': len(data), 'cpu_s': round(cpu, 3), 'budget_s': round(cpu_budget, 3), 'data': data[:96]}, {'data': data, 'header_only': header_only, 'class': cls})
+            return None
         ck.count(f'parse.{cls}')
         if len(data) >= 28:
             self.max_density = max(self.max_density, lines / len(data))
@@ -149,6 +181,32 @@ def large_inputs(ck, P, rng):
             if len(chain) < 65000:
                 hdr2 = dict(hdr, exch=36, spi_r=gen.rb(rng, 8), mid=3)
                 P.one(f'large.sealed.{name}', seal(hdr2, chain, first, keys, rng), crypto=crypto, desc={'inner': chain, 'inner_first': first, 'keys': keys})
+
+
+def hostile_text(ck, P, rng):
+    """(g) text fields whose shape is hostile to pattern matching (a long run of one character, then something that cannot match; nested repetitions):
+    identities of every ID type, vendor IDs and notification data, in clear and inside SK."""
+    crypto, keys = make_crypto(rng, True)
+    shapes = []
+    for n_ in (24, 30, 40, 61, 200):
+        for ch in (b'a', b'.', b'a.', b'@', b'-', b' ', b'\\', b'1'):
+            run = (ch * n_)[:n_ * len(ch)]
+            for tail in (b'..', b'.', b'!', b'@@', b'', b'\x00', b'.a..', b'..a'):
+                shapes.append(run + tail)
+                shapes.append(b'gw-' + run + tail)
+    rng.shuffle(shapes)
+    n = 950000
+    for text in shapes[:160 if not ck.thorough() else None]:
+        for ptype, body in ((35, struct.pack('>B3x', rng.choice([1, 2, 3, 5, 9, 11])) + text), (36, struct.pack('>B3x', 2) + text), (43, text),
+                            (41, struct.pack('>BBH', 0, 0, rng.choice([16390, 16388, 40000])) + text)):
+            n += 1
+            if not ck.mine(n):
+                continue
+            chain = _pl(0, body)
+            hdr = {'spi_i': gen.rb(rng, 8), 'spi_r': gen.rb(rng, 8), 'major': 2, 'minor': 0, 'exch': 35, 'flags': 0x08, 'mid': 1}
+            ck.count('hostile_text.inputs')
+            P.one('hostile-text.clear', codec.enc_header(hdr, ptype, 28 + len(chain)) + chain)
+            P.one('hostile-text.sealed', seal(hdr, chain, ptype, keys, rng), crypto=crypto, desc={'inner': chain, 'inner_first': ptype, 'keys': keys})
 
 
 def long_lived(ck, P, rng):
@@ -285,13 +343,28 @@ def run(ck):
                 patho[f'padlen_{pl}'] = seal(hdr, inner_raw, inner_first, keys, rng, padlen=pl)[32:][:-icvn]
             pt_empty = ikecrypto.aes_cbc_encrypt(sk_e, body[:16], b'\x0f' * 16)
             patho['all_padding'] = body[:16] + pt_empty
+            def remac_front(front_data_len, body_wo_icv):
+                # the same, with a cleartext NOTIFY payload in front of SK (legal syntax, covered by the checksum): length arithmetic that assumes
+                # "SK is the only payload" goes wrong here
+                front = bytes([46, 0]) + (8 + front_data_len).to_bytes(2, 'big') + struct.pack('>BBH', 0, 0, 16388) + bytes(front_data_len)
+                total = 28 + len(front) + 4 + len(body_wo_icv) + icvn
+                head = codec.enc_header(hdr, 41, total) + front + bytes([inner_first, 0]) + (4 + len(body_wo_icv) + icvn).to_bytes(2, 'big') + body_wo_icv
+                return head + ikecrypto.icv(integ_id, sk_a, head)
             for pname, b in patho.items():
                 n += 1
                 if ck.mine(n):
                     ck.seen('sealed.pathologies', pname)
                     P.one(f'sealed.patho.{pname}', remac(b), crypto=crypto, desc={'inner': b'', 'keys': keys})
+                    # filler chosen so that front payload + SK body is a whole number of blocks although the ciphertext is not (and one unaligned filler)
+                    f_aligned = (-(8 + len(b))) % 16
+                    for f_ in {f_aligned, (f_aligned + 5) % 16}:
+                        ck.count('sealed.pathologies_behind_a_cleartext_payload')
+                        P.one(f'sealed.patho-after-clear-payload.{pname}', remac_front(f_, b), crypto=crypto, desc={'inner': b'', 'keys': keys})
     large_inputs(ck, P, rng)
+    hostile_text(ck, P, ck.rng('hostile-text'))
     long_lived(ck, P, ck.rng('long-lived', ck.shard[0]))
+    ck.notes['max_cpu_seconds_of_one_call'] = round(P.max_cpu, 3)
+    ck.sets['max_cpu_ms'].add(int(P.max_cpu * 1000))
     ck.notes['max_lines_per_byte'] = round(P.max_density, 2)
     ck.sets['max_lines_per_byte'].add(round(P.max_density, 1))
     ck.sample({'class': 'grid.payload', 'example': codec.encode_clear(bases['informational'])[:64]})
@@ -307,8 +380,10 @@ def verdict(ck):
     for cls in ('grid.proposal', 'grid.transform', 'grid.selector', 'grid.delete', 'sealed.grid.payload', 'sealed.grid.proposal'):
         ck.floor(f'cases {cls}', c[f'parse.{cls}'], 300)
     ck.floor('distinct long proposals parsed by one process', c['longlived.parsed'], 1500)
+    ck.floor('inputs with text hostile to pattern matching', c['hostile_text.inputs'], 500)
     ck.floor('large extreme shapes', len(ck.sets['large.shapes']), 15)
     ck.floor('large inputs parsed', c['large.inputs'], 40)
+    ck.floor('authentic-but-malformed pathologies behind a cleartext payload', c['sealed.pathologies_behind_a_cleartext_payload'], 200)
     ck.floor('authentic-but-malformed pathologies', len(ck.sets['sealed.pathologies']), 10)
     return {'max_lines_per_byte_seen': max(ck.sets['max_lines_per_byte']) if ck.sets['max_lines_per_byte'] else None,
             'budget_formula': '600 + 20*len(data) + 5*declared_delete_spis'}
